@@ -39,6 +39,7 @@ const (
 	vPadDeepFirst = "pad-deep-first" // ... inside the deepest container of the first-container spine
 	vPadDeepLast  = "pad-deep-last"  //     (every container above it becomes large as well)
 	vEmptyCell    = "empty-cell"     // zero-length value: JSON null
+	vKeyGaps      = "key-gaps"       // dead bytes between the keys of every object (members removed in place)
 )
 
 const padLen = 65536
@@ -99,6 +100,8 @@ func apply(d *ref.JDoc, variant string) (*ref.JDoc, ref.JSONFormat) {
 	switch variant {
 	case vForceLarge:
 		return d, ref.JSONForceLarge
+	case vKeyGaps:
+		return d, ref.JSONKeyGaps
 	case vPadRootFirst:
 		return withPad(d, true), ref.JSONNatural
 	case vPadRootLast:
@@ -535,7 +538,7 @@ func (c *checker) docOnce(w *scratch, d *ref.JDoc) {
 	c.doc(w, d)
 }
 
-var variantIndex = map[string]int{vNatural: 0, vForceLarge: 1, vPadRootFirst: 2, vPadRootLast: 3, vPadDeepFirst: 4, vPadDeepLast: 5, vEmptyCell: 6}
+var variantIndex = map[string]int{vNatural: 0, vForceLarge: 1, vPadRootFirst: 2, vPadRootLast: 3, vPadDeepFirst: 4, vPadDeepLast: 5, vEmptyCell: 6, vKeyGaps: 7}
 
 func (c *checker) one(w *scratch, d *ref.JDoc, variant string, offs []int) {
 	c.evals.Add(int64(len(offs)))
@@ -570,6 +573,19 @@ func (c *checker) one(w *scratch, d *ref.JDoc, variant string, offs []int) {
 	}
 }
 
+// hasObject reports whether d holds an object with at least two members somewhere.
+func hasObject(d *ref.JDoc) bool {
+	if d.Kind == ref.JObject && len(d.Elems) >= 2 {
+		return true
+	}
+	for _, c := range d.Elems {
+		if hasObject(c) {
+			return true
+		}
+	}
+	return false
+}
+
 // doc checks a document in every storage variant that applies to it.
 func (c *checker) doc(w *scratch, d *ref.JDoc) {
 	c.one(w, d, vNatural, []int{0, 3})
@@ -577,6 +593,9 @@ func (c *checker) doc(w *scratch, d *ref.JDoc) {
 		return
 	}
 	c.one(w, d, vForceLarge, []int{3})
+	if hasObject(d) && ref.JSONSmallSize(d) < 30000 {
+		c.one(w, d, vKeyGaps, []int{0})
+	}
 	c.one(w, d, vPadRootFirst, []int{0})
 	c.one(w, d, vPadRootLast, []int{3})
 	if firstContainerChild(d) >= 0 {
